@@ -106,34 +106,48 @@ def build_unit(unit, canary=False):
 
 
 def make_canary(u):
-    """append `false` to the ensures of every extracted function (vacuity guard)."""
-    for fn in u.functions:
+    """vacuity guard file: every extracted function is followed by a copy `<name>__canary` whose contract
+    additionally ensures `false`.  The originals keep their real contracts (so callers are not made
+    vacuous through a callee); each copy must FAIL."""
+    fns = sorted(u.functions, key=lambda f: f["gen_start"])
+    out = []
+    pos = 0
+    canaries = []
+    for fn in fns:
         lo, hi = fn["gen_start"] - 1, fn["gen_end"]
-        done = False
-        for k in range(lo, hi):
-            t, s = u.lines[k]
-            if s and s.startswith("sidecar:") and re.search(r"^\s*ensures\b", t):
-                u.lines[k] = (re.sub(r"\bensures\b", "ensures false /*canary*/,", t, count=1), s)
-                done = True
-                break
-        if not done:
-            # no ensures: add one right before the body's opening brace (first src line starting with '{')
-            for k in range(lo, hi):
-                t, s = u.lines[k]
-                if s and not s.startswith("sidecar:") and t.lstrip().startswith("{"):
-                    u.lines.insert(k, ("    ensures false /*canary*/,", "sidecar:canary"))
-                    # shift ranges of later functions
-                    for g in u.functions:
-                        if g["gen_start"] - 1 > k:
-                            g["gen_start"] += 1
-                        if g["gen_end"] > k:
-                            g["gen_end"] += 1
-                    for lab in u.labels.values():
-                        if lab["line"] > k:
-                            lab["line"] += 1
-                    done = True
+        out.extend(u.lines[pos:hi])
+        pos = hi
+        copy = []
+        renamed = False
+        added = False
+        for (t, s) in u.lines[lo:hi]:
+            t2 = extract.LABEL_RE.sub("", t)
+            if not renamed and s and not s.startswith("sidecar:"):
+                t3, n = re.subn(r"\bfn\s+(\w+)", lambda m: "fn %s__canary" % m.group(1), t2, count=1)
+                if n:
+                    renamed = True
+                    t2 = t3
+            if not added and s and s.startswith("sidecar:") and re.search(r"^\s*ensures\b", t2):
+                t2 = re.sub(r"\bensures\b", "ensures false /*canary*/,", t2, count=1)
+                added = True
+            copy.append((t2, "sidecar:canary" if (s and s.startswith("sidecar:")) else s))
+        if not added:
+            # no ensures clause: add one right before the body's opening brace
+            for k, (t2, s) in enumerate(copy):
+                if s and not s.startswith("sidecar:") and t2.lstrip().startswith("{"):
+                    copy.insert(k, ("    ensures false /*canary*/,", "sidecar:canary"))
+                    added = True
                     break
-        fn["canary"] = done
+        start = len(out) + 1
+        out.extend(copy)
+        canaries.append({"fn": fn["id"], "gen_start": start, "gen_end": len(out), "ok": renamed and added})
+    out.extend(u.lines[pos:])
+    u.lines = out
+    u.canaries = canaries
+    # original function ranges / labels are no longer meaningful in this file
+    u.functions = [{"id": c["fn"], "name": c["fn"], "impl": "", "file": "", "line_start": 0, "line_end": 0, "sha256": "",
+                    "props": [], "gen_start": c["gen_start"], "gen_end": c["gen_end"], "canary_ok": c["ok"]} for c in canaries]
+    u.labels = {}
 
 
 def run_verus(rs, extra=None):
@@ -252,7 +266,7 @@ def canary_unit(unit):
     if tool:
         raise Inconclusive("canary of unit %s: tool error %s" % (unit, (tool[0].get("message") or "")[:300]))
     failed_fns = set(f["fn"] for f in failures if f["kind"] == "ensures")
-    vacuous = [fn["id"] for fn in meta["functions"] if fn["id"] not in failed_fns]
+    vacuous = [fn["id"] for fn in meta["functions"] if fn["id"] not in failed_fns or not fn.get("canary_ok")]
     return {"functions": len(meta["functions"]), "failed_as_expected": len(meta["functions"]) - len(vacuous), "vacuous": vacuous,
             "wall": res["wall"]}
 
@@ -586,6 +600,21 @@ def main(argv):
         except Inconclusive as e:
             print("setup failed: %s" % e)
             return 2
+    if len(argv) >= 2 and argv[1] == "--pin":
+        # record the current rewrite-rule application counts and assumption counts as the committed expectation
+        cfgp = os.path.join(ROOT, "checks.json")
+        cfg = json.load(open(cfgp))
+        for u in cfg["units"]:
+            cfg["units"][u].pop("rewrite_counts", None)
+            cfg["units"][u].pop("assumption_counts", None)
+        CONFIG["units"] = cfg["units"]
+        for u in cfg["units"]:
+            rs, meta = build_unit(u)
+            cfg["units"][u]["rewrite_counts"] = meta["rewrite_counts"]
+            cfg["units"][u]["assumption_counts"] = scan_assumptions(rs)
+        json.dump(cfg, open(cfgp, "w"), indent=1)
+        print("pinned %d units" % len(cfg["units"]))
+        return 0
     if len(argv) >= 3 and argv[1] == "--replay":
         try:
             ensure_replay_bin()
